@@ -306,6 +306,18 @@ class Weaver:
             ed.replace(it["async_kw"][0], it["async_kw"][1], "", "D4")
             for a in it["awaits"]:
                 ed.replace(a["span"][0], a["span"][1], "", "D4")
+        # D6: a by-value `mut self` receiver (rejected by Verus) becomes `self` plus `let mut kvx_self = self;` as the first statement,
+        # with every `self` token of the body renamed — the definitional meaning of a `mut` binding of a by-value parameter
+        for inp in it.get("inputs", []):
+            if inp.get("name") == "self":
+                rtxt = src[inp["span"][0]:inp["span"][1]].decode("utf-8")
+                if re.fullmatch(r"mut\s+self", rtxt.strip()):
+                    ed.replace(inp["span"][0], inp["span"][1], "self", "D6")
+                    bo, bc = it["body_open"], it["body_close"]
+                    ed.insert(bo + 1, " let mut kvx_self = self; ", "D6")
+                    body = src[bo + 1:bc]
+                    for m in re.finditer(rb"\bself\b", body):
+                        ed.replace(bo + 1 + m.start(), bo + 1 + m.end(), "kvx_self", "D6")
         # D2: attributes and doc comments on the fn, and attributes inside the body
         for a in it["attrs"]:
             ed.replace(a["span"][0], a["span"][1], "", "D2")
@@ -679,8 +691,16 @@ def rewrite_assert(txt, nm):
 def apply_patch(text, p, fired, where):
     old, new = p["old"], p["new"]
     cnt = p.get("count", 1)
-    if p.get("optional") and old not in text and not p.get("flex"):
+    if p.get("optional") and old not in text and not p.get("flex") and not p.get("regex"):
         return text     # a redirect of a construct that may or may not be present (e.g. one `X.into()` per listed class)
+    if p.get("regex"):
+        # `old` is a regular expression, `new` may use its groups: for redirects whose argument text is the code's own (kept verbatim)
+        rx = re.compile(old)
+        n = len(rx.findall(text))
+        if (cnt == "any" and n == 0 and not p.get("optional")) or (cnt != "any" and n != cnt):
+            raise Undecided(f"{p.get('rule', 'R4')} patch anchor /{old}/ occurs {n} times in {where}, expected {cnt}")
+        fired.append(p.get("rule", "R4"))
+        return rx.sub(new, text)
     if p.get("flex"):
         # whitespace-flexible anchor: any run of whitespace and line comments (or none) between the anchor's tokens matches
         rx = re.compile(r"(?:\s|//[^\n]*\n)*".join(re.escape(tok) for tok in old.split()))
